@@ -1,6 +1,6 @@
 // unit `soc_step` : second-order-cone step length (C15, C07).  float model: F-real.
 // The cone membership of x + t*y is read through the quadratic  q(t) = a t^2 + b t + c  with
-//   a = resid(y), b = 2 (x0 y0 - <x1, y1>), c = max(0, resid(x)),  resid(z) = z0^2 - |z1|^2   (mathematical identity, ASSUMED)
+//   a = resid(y), b = 2 (x0 y0 - <x1, y1>), c = max(0, resid(x)),  resid(z) = z0^2 - |z1|^2   (identity proved: lemma_quad_is_resid)
 // and the scalar part x0 + t y0 >= 0.
 use vstd::prelude::*;
 verus! {
@@ -12,10 +12,122 @@ pub broadcast proof fn ax_sqrt(a: F) requires a.v() >= 0real
     ensures (#[trigger] f_sqrt(a)).v() >= 0real, f_sqrt(a).v() * f_sqrt(a).v() == a.v() { admit(); }
 pub broadcast proof fn ax_lit4() ensures #[trigger] f_lit(4.0f64).v() == 4real { admit(); }
 
-pub uninterp spec fn soc_resid(z: Seq<F>) -> F;
-// ASSUMED contract of _soc_residual ((z0 - |z1|)(z0 + |z1|); norm is a fold): it returns the cone residual
-#[verifier::external_body]
-fn _soc_residual(z: &[F]) -> (r: F) ensures r == soc_resid(z@) { unimplemented!() }
+// the cone residual as the code computes it: (z0 - |z1|)(z0 + |z1|), |z1| = sqrt of the left fold of the squares of the tail
+pub open spec fn tail(z: Seq<F>) -> Seq<F> { z.subrange(1, z.len() as int) }
+pub open spec fn soc_resid(z: Seq<F>) -> F { f_mul(f_sub(z[0], vm_norm(tail(z))), f_add(z[0], vm_norm(tail(z)))) }
+//@fn file=src/solver/core/cones/socone.rs name=_soc_residual rules=R1 ret=r
+//@contract
+    requires z@.len() >= 1,
+    ensures r == soc_resid(z@),
+//@end
+
+// ---- the mathematical reading (F-real): residual = z0^2 - sum of squares of the tail; along x + t y it is the quadratic ----
+pub open spec fn rdot(a: Seq<F>, b: Seq<F>, k: int) -> real decreases k { if k <= 0 { 0real } else { rdot(a, b, k - 1) + a[k - 1].v() * b[k - 1].v() } }
+// sum of squares of the tail of x + t y
+pub open spec fn rsh(a: Seq<F>, b: Seq<F>, t: real, k: int) -> real decreases k {
+    if k <= 0 { 0real } else { rsh(a, b, t, k - 1) + (a[k - 1].v() + t * b[k - 1].v()) * (a[k - 1].v() + t * b[k - 1].v()) } }
+pub open spec fn soc_resid_r(z: Seq<F>) -> real { z[0].v() * z[0].v() - rdot(tail(z), tail(z), z.len() - 1) }
+// C15: x + t y is in the second-order cone: scalar part nonnegative and its square at least the squared norm of the tail
+pub open spec fn shift_in_cone(x: Seq<F>, y: Seq<F>, t: real) -> bool {
+    let s0 = x[0].v() + t * y[0].v();
+    s0 >= 0real && s0 * s0 >= rsh(tail(x), tail(y), t, x.len() - 1)
+}
+pub open spec fn seg_quad_ok(x: Seq<F>, y: Seq<F>, rr: real) -> bool { forall|tau: real| 0real <= tau <= rr ==> #[trigger] quad(qa(y), qb(x, y), qc(x), tau) >= 0real }
+pub open spec fn seg_in_cone(x: Seq<F>, y: Seq<F>, rr: real) -> bool { forall|tau: real| 0real <= tau <= rr ==> #[trigger] shift_in_cone(x, y, tau) }
+pub proof fn lemma_fold_dot_real(a: Seq<F>, b: Seq<F>, k: int)
+    requires 0 <= k,
+    ensures fold_dot(a, b, k).v() == rdot(a, b, k),
+    decreases k,
+{
+    broadcast use real_arith;
+    if k > 0 { lemma_fold_dot_real(a, b, k - 1); }
+}
+pub proof fn lemma_rdot_sq_nonneg(a: Seq<F>, k: int)
+    requires 0 <= k,
+    ensures rdot(a, a, k) >= 0real,
+    decreases k,
+{
+    if k > 0 { lemma_rdot_sq_nonneg(a, k - 1); let p = a[k - 1].v(); assert(p * p >= 0real) by(nonlinear_arith); }
+}
+pub proof fn lemma_resid_real(z: Seq<F>)
+    requires z.len() >= 1,
+    ensures soc_resid(z).v() == soc_resid_r(z),
+{
+    broadcast use real_arith, ax_sqrt;
+    reveal(vm_norm);
+    let t = tail(z); let n = z.len() - 1;
+    assert(t.len() == n);
+    lemma_fold_dot_real(t, t, n); lemma_rdot_sq_nonneg(t, n);
+    let nv = vm_norm(t).v(); let z0 = z[0].v(); let ss = rdot(t, t, n);
+    assert(nv * nv == ss);
+    assert((z0 - nv) * (z0 + nv) == z0 * z0 - ss) by(nonlinear_arith) requires nv * nv == ss;
+}
+// (p + u)^2 and the monomial rearrangements used below, each as its own small nonlinear query (a single degree-4 identity made
+// the nonlinear solver run away under some random seeds)
+pub proof fn lemma_sq_sum(p: real, u: real) ensures (p + u) * (p + u) == p * p + 2real * (p * u) + u * u { assert((p + u) * (p + u) == p * p + 2real * (p * u) + u * u) by(nonlinear_arith); }
+pub proof fn lemma_mul_re(t: real, p: real, q: real) ensures p * (t * q) == t * (p * q), (t * q) * (t * q) == (t * t) * (q * q)
+{
+    let pq = p * q; let tq = t * q;
+    assert(p * tq == t * pq) by(nonlinear_arith) requires pq == p * q, tq == t * q;
+    let tt = t * t; let qq = q * q;
+    assert(tq * tq == tt * qq) by(nonlinear_arith) requires tq == t * q, tt == t * t, qq == q * q;
+}
+pub proof fn lemma_dist(k: real, a: real, b: real) ensures k * (a + b) == k * a + k * b { assert(k * (a + b) == k * a + k * b) by(nonlinear_arith); }
+pub proof fn lemma_shift_expand(a: Seq<F>, b: Seq<F>, t: real, k: int)
+    requires 0 <= k,
+    ensures rsh(a, b, t, k) == rdot(a, a, k) + (2real * t) * rdot(a, b, k) + (t * t) * rdot(b, b, k),
+    decreases k,
+{
+    if k > 0 {
+        lemma_shift_expand(a, b, t, k - 1);
+        let p = a[k - 1].v(); let q = b[k - 1].v();
+        let B = rdot(a, b, k - 1); let C = rdot(b, b, k - 1);
+        lemma_sq_sum(p, t * q);
+        lemma_mul_re(t, p, q);
+        lemma_dist(2real * t, B, p * q);
+        lemma_dist(t * t, C, q * q);
+        assert(2real * (t * (p * q)) == (2real * t) * (p * q)) by(nonlinear_arith);
+    }
+}
+// the (formerly assumed) identity: the cone residual of x + t y is the quadratic a t^2 + b t + c
+pub proof fn lemma_quad_is_resid(x: Seq<F>, y: Seq<F>, t: real)
+    requires x.len() >= 1, y.len() == x.len(), soc_resid(x).v() >= 0real,
+    ensures
+        (x[0].v() + t * y[0].v()) * (x[0].v() + t * y[0].v()) - rsh(tail(x), tail(y), t, x.len() - 1) == quad(qa(y), qb(x, y), qc(x), t),
+{
+    broadcast use real_arith;
+    reveal(vm_dot);
+    let n = x.len() - 1; let x1 = tail(x); let y1 = tail(y);
+    assert(x1.len() == n && y1.len() == n);
+    lemma_resid_real(x); lemma_resid_real(y);
+    lemma_fold_dot_real(x1, y1, n);
+    lemma_shift_expand(x1, y1, t, n);
+    let x0 = x[0].v(); let y0 = y[0].v();
+    let A = rdot(x1, x1, n); let B = rdot(x1, y1, n); let C = rdot(y1, y1, n);
+    assert(vm_dot(x1, y1).v() == B);
+    assert(qa(y) == y0 * y0 - C); assert(qb(x, y) == 2real * (x0 * y0 - B)); assert(qc(x) == x0 * x0 - A);
+    lemma_sq_sum(x0, t * y0); lemma_mul_re(t, x0, y0);
+    assert(2real * (t * (x0 * y0)) == (2real * t) * (x0 * y0)) by(nonlinear_arith);
+    // q(t) = (y0^2 - C) t t + 2 (x0 y0 - B) t + (x0^2 - A)
+    let tt = t * t; let yy = y0 * y0; let xy = x0 * y0;
+    assert((yy - C) * t * t == tt * yy - tt * C) by(nonlinear_arith) requires tt == t * t;
+    assert(2real * (xy - B) * t == (2real * t) * xy - (2real * t) * B) by(nonlinear_arith);
+}
+// C15 (second-order cone, safety on the whole segment): a step that keeps the scalar part and the quadratic nonnegative keeps
+// x + tau y inside the cone for every tau in [0, rr]
+pub proof fn lemma_seg(x: Seq<F>, y: Seq<F>, rr: real)
+    requires x.len() >= 1, y.len() == x.len(), x[0].v() > 0real, soc_resid(x).v() > 0real,
+        seg_quad_ok(x, y, rr), rr >= 0real ==> x[0].v() + rr * y[0].v() >= 0real,
+    ensures seg_in_cone(x, y, rr),
+{
+    assert forall|tau: real| 0real <= tau <= rr implies #[trigger] shift_in_cone(x, y, tau) by {
+        let x0 = x[0].v(); let y0 = y[0].v();
+        if y0 >= 0real { assert(x0 + tau * y0 >= 0real) by(nonlinear_arith) requires x0 > 0real, y0 >= 0real, tau >= 0real; }
+        else { assert(x0 + tau * y0 >= 0real) by(nonlinear_arith) requires x0 + rr * y0 >= 0real, y0 < 0real, tau <= rr; }
+        lemma_quad_is_resid(x, y, tau);
+        assert(quad(qa(y), qb(x, y), qc(x), tau) >= 0real);
+    }
+}
 
 pub open spec fn qa(y: Seq<F>) -> real { soc_resid(y).v() }
 pub open spec fn qb(x: Seq<F>, y: Seq<F>) -> real {
@@ -128,7 +240,9 @@ pub proof fn lemma_no_roots(a: real, b: real, c: real, tau: real)
         // never leaves the cone when taken: the scalar part stays nonnegative ...
         r.v() >= 0real ==> x@[0].v() + r.v() * y@[0].v() >= 0real,
         // ... and the cone residual q(t) = a t^2 + b t + c stays nonnegative on the whole segment [0, r]
-        forall|tau: real| 0real <= tau <= r.v() ==> #[trigger] quad(qa(y@), qb(x@, y@), qc(x@), tau) >= 0real,
+        seg_quad_ok(x@, y@, r.v()),
+        // C15: hence x + tau y is in the cone for every tau in [0, r] (lemma_quad_is_resid: q(tau) IS the residual of x + tau y)
+        seg_in_cone(x@, y@, r.v()),
 //@pre
     broadcast use real_arith, ax_sqrt, ax_lit4;
     let ghost amax0 = alphamax.v();
@@ -167,11 +281,15 @@ pub proof fn lemma_no_roots(a: real, b: real, c: real, tau: real)
             let x0 = x@[0].v(); let y0 = y@[0].v();
             assert(x0 + rho * y0 >= 0real) by(nonlinear_arith)
                 requires 0real <= rho <= alphamax.v(), x0 > 0real, x0 + alphamax.v() * y0 >= 0real;
+            assert(seg_quad_ok(x@, y@, rho));
+            lemma_seg(x@, y@, rho);
         }
         if (a.v() > 0real && b.v() > 0real) || d.v() < 0real {
             assert forall|tau: real| 0real <= tau <= alphamax.v() implies #[trigger] quad(qa(y@), qb(x@, y@), qc(x@), tau) >= 0real by {
                 lemma_no_roots(a.v(), b.v(), c.v(), tau);
             }
+            assert(seg_quad_ok(x@, y@, alphamax.v()));
+            lemma_seg(x@, y@, alphamax.v());
         }
     }
 //@after "let r2 = if r2 < F::zero()"
@@ -201,6 +319,8 @@ pub proof fn lemma_no_roots(a: real, b: real, c: real, tau: real)
             assert(x0 + rho * y0 >= 0real) by(nonlinear_arith)
                 requires 0real <= rho <= alphamax.v(), x0 > 0real, x0 + alphamax.v() * y0 >= 0real;
         }
+        assert(seg_quad_ok(x@, y@, rho));
+        lemma_seg(x@, y@, rho);
     }
 //@end
 
@@ -232,7 +352,21 @@ impl SecondOrderCone<F> {
 }
 
 //@enum file=src/solver/core/cones/mod.rs name=PrimalOrDualCone rules=R12 derive="PartialEq, Eq, Clone, Copy, Structural"
+//@struct file=src/solver/implementations/default/settings.rs name=DefaultSettings rules=R1f
+//@type file=src/solver/core/settings.rs name=CoreSettings
 impl SecondOrderCone<F> {
+//@fn file=src/solver/core/cones/socone.rs in="Cone<T> for SecondOrderCone<T>" name=step_length rules=R1,R2 ret=r
+//@contract
+    requires
+        z@.len() >= 1, dz@.len() == z@.len(), s@.len() >= 1, ds@.len() == s@.len(), alphamax.v() >= 0real,
+        // C15 "every interior point": z and s strictly inside the cone
+        z@[0].v() > 0real, soc_resid(z@).v() > 0real, s@[0].v() > 0real, soc_resid(s@).v() > 0real,
+    ensures
+        // C15 (second-order cone): neither step exceeds alpha_max, and z + t dz resp. s + t ds stays in the cone for every t up to the step
+        r.0.v() <= alphamax.v(), r.1.v() <= alphamax.v(),
+        seg_in_cone(z@, dz@, r.0.v()), seg_in_cone(s@, ds@, r.1.v()),
+        *final(self) == *old(self),
+//@end
 //@fn file=src/solver/core/cones/socone.rs in="Cone<T> for SecondOrderCone<T>" name=margins rules=R1,R2 ret=r params=z,pd
 //@contract
     requires old(z)@.len() >= 1,
